@@ -35,6 +35,7 @@ class Engine:
         self.trace = False
         self.prefix_stubs = []
         self.concretize_stores = False
+        self.deadline = None          # wall-clock limit (time.time() value): paths still running then are cut (Budget)
         self.region_hook = None       # called as hook(st, 'load'|'store', region, index, nbytes, value) on array-region accesses
 
     # ------------------------------------------------------------------ solver
@@ -863,6 +864,7 @@ class Engine:
             d = fr.code[fr.ip]; fr.ip += 1
             self.steps += 1; st.steps += 1
             if st.steps > self.max_steps: raise Budget()
+            if self.deadline is not None and (self.steps & 1023) == 0 and time.time() > self.deadline: raise Budget()
             op = d[0]
             if op == 'bin':
                 _, dst, o, w, a, b, flags = d
